@@ -20,10 +20,10 @@ var verifSince time.Duration
 func verifStubSince(t time.Time) time.Duration { return verifSince }
 
 type verifArrival struct {
-	sub     *verifSub
-	low     bool
+	sub      *verifSub
+	low      bool
 	admitted bool // entered the pool (not rejected, not served from a dedup source)
-	evicted bool
+	evicted  bool
 }
 
 // pollNow completes the waiter if it can complete without blocking.
@@ -153,7 +153,7 @@ func VerifC17Pool(poolSize, arrivals int) {
 }
 
 // VerifC17Stop: the sequencer loop with pending submitters, stopped by cancellation (mode 0), by the
-// read-only date (mode 1) or by a fatal error (mode 2). After the stop every pending and future
+// read-only date (mode 1), by a fatal lock error (mode 2) or by a clock reading that does not progress (mode 3). After the stop every pending and future
 // submission fails and no further checkpoint is signed.
 func VerifC17Stop(mode, roundsBefore int) {
 	w := newWorld(0, 0)
@@ -188,6 +188,19 @@ func VerifC17Stop(mode, roundsBefore int) {
 		verifAssume(verifSince >= ReadOnlyAfter)
 		verifTick()
 		verifYield()
+	case 3:
+		// the clock reading of the next round is arbitrary: if it is not after the tree head's time the
+		// round ends with the fatal "time did not progress" error
+		w.clockMode = 0
+		verifTick()
+		verifYield()
+		w.clockMode = 1
+		if !finished {
+			verifReach("progressed")
+			verifAssert(pollNow(pending) && pending.err == nil, "a submission is not acknowledged promptly after its pool is sequenced")
+			cancel()
+			return
+		}
 	default:
 		w.armed, w.faults = true, 1
 		w.faultOnly = "lock-replace"
@@ -206,8 +219,8 @@ func VerifC17Stop(mode, roundsBefore int) {
 		var sunset SunsetLogError
 		verifAssert(errors.As(runErr, &sunset) && sunset.FinalTree.N == w.lockHist[len(w.lockHist)-1].n, "the read-only stop reports the final tree")
 	}
-	if mode == 2 {
-		verifAssert(errors.Is(runErr, errFatal), "a lock failure stops the sequencer with the fatal error")
+	if mode == 2 || mode == 3 {
+		verifAssert(errors.Is(runErr, errFatal), "a lock failure or a clock that did not progress stops the sequencer with the fatal error")
 	}
 	verifAssert(pollNow(pending) && pending.err != nil, "a submitter pending at the stop is not failed promptly")
 	s.lc = 4
